@@ -220,6 +220,14 @@ fn compare_runs(a: &Snapshot, b: &Snapshot, what: &str) -> Option<String> {
     if let Some(d) = ws::diff_maps(&ws::user_files(a), &ws::user_files(b), true) {
         return Some(format!("{}: tree/rejects differ: {}", what, d));
     }
+    // "the same tree": directories too (an emptied directory is removed whichever invocation empties it)
+    let dirs = |s: &Snapshot| -> Vec<String> { s.iter().filter(|(p, e)| e.kind == 'd' && !p.starts_with(b".pc") && !p.starts_with(b"patches")).map(|(p, _)| String::from_utf8_lossy(p).into_owned()).collect() };
+    let (da, db) = (dirs(a), dirs(b));
+    if da != db {
+        let only_a: Vec<&String> = da.iter().filter(|d| !db.contains(d)).collect();
+        let only_b: Vec<&String> = db.iter().filter(|d| !da.contains(d)).collect();
+        return Some(format!("{}: directories differ: only in the first {:?}, only in the second {:?}", what, only_a, only_b));
+    }
     let ap = |s: &Snapshot| s.get(&b".pc/applied-patches".to_vec()).map(|e| e.bytes.clone()).unwrap_or_default();
     if ap(a) != ap(b) {
         return Some(format!("{}: applied-patches differ: {:?} vs {:?}", what, esc(&ap(a)), esc(&ap(b))));
